@@ -3,7 +3,9 @@
 ID=$1; CHK=$2; TIER=${3:-quick}
 cd /repo && git status --short | grep -v '^??' | head -1 | grep -q . && { echo "/repo dirty"; exit 2; }
 git -C /repo apply /verif/seeded/$ID/patch.diff || exit 2
+cp /verif/evidence/$CHK.json /tmp/evidence.$CHK.bak 2>/dev/null
 cd /verif && ./vcheck $CHK --tier $TIER > /tmp/seedrun.$ID.$CHK.log 2>&1; rc=$?
 git -C /repo checkout -- .
+cp /tmp/evidence.$CHK.bak /verif/evidence/$CHK.json 2>/dev/null  # evidence is for the unchanged tree only
 echo "seed=$ID check=$CHK tier=$TIER rc=$rc $(grep -c '^VIOLATION' /tmp/seedrun.$ID.$CHK.log) violations; $(tail -1 /tmp/seedrun.$ID.$CHK.log)"
 grep -m2 -A2 '^VIOLATION' /tmp/seedrun.$ID.$CHK.log | head -8
